@@ -101,7 +101,12 @@ InitOb(p) ==
     tli  |-> [k \in Q.tls |-> 0],                       \* initialisations of key k (over all threads)
     \* lazy statics: published instance (-1: none), instances constructed so far, instances dropped early
     lz   |-> [z \in Q.lzs |-> [id |-> -1, ninit |-> 0, lost |-> 0, view |-> BotFor(p)]],
-    lzmine |-> [t \in 1..Len(Q.threads) |-> -1] ]
+    lzmine |-> [t \in 1..Len(Q.threads) |-> -1],
+    \* futures: AtomicWaker slot (thread whose block_on waker is registered, 0: none); per thread the
+    \* Notify behind its block_on waker, and the number of polls of the block_on in progress
+    aw   |-> [w \in Q.aws |-> 0],
+    awv  |-> [w \in Q.aws |-> BotFor(p)],               \* view handed over by the AtomicWaker's internal lock
+    bon  |-> [t \in 1..Len(Q.threads) |-> [flag |-> FALSE, spurred |-> FALSE, view |-> BotFor(p), polls |-> 0]] ]
 
 \* the initial state of program p as a record (used by Init and by the trace spec's reset)
 I0(p) ==
@@ -587,6 +592,63 @@ LzGetRacy(t, ins, me) ==
        /\ Adv(t) /\ NoRace /\ UNCHANGED cells
 LzGet(t, ins, me) == IF ins.k = "yield" THEN LzGetRacy(t, ins, me) ELSE LzGetSimple(t, ins, me)
 
+(* -------------------------------------------------------------- futures *)
+\* future::block_on of a hand-written future over AtomicWaker ins.o and flag ins.o2:
+\*   k = "reg-check":  poll = { w.register_by_ref(cx.waker()); v = flag.load(ord); v # 0 ? Ready(v) : Pending }
+\*   k = "check-reg":  poll = { v = flag.load(ord); if v # 0 Ready(v); w.register_by_ref(cx.waker()); Pending }
+\* block_on = loop { poll; if Pending { notify.wait() } }, Notify with one spurious return.
+\* Sub-states: "" / "bo_poll" at the start of a poll, "bo_c" register done (reg-check), "bo_r" load saw 0
+\* (check-reg), "bo_wait" Pending returned.  Returns v * 100 + number of polls.
+BoBase(t, me) == /\ SetMe(t, me) /\ UNCHANGED <<scv, st, cells>>
+\* register and wake both run under the AtomicWaker's lock: acquire its view, release the own one
+BoRegister(t, ins, me, nextsub) ==
+  LET me1 == AcqV(me, ob.awv[ins.o]) IN
+  /\ ob' = [ob EXCEPT !.aw[ins.o] = t, !.awv[ins.o] = JoinV(@, me1.cur)]
+  /\ sub' = [sub EXCEPT ![t] = nextsub]
+  /\ BoBase(t, me1) /\ UnchMem /\ NoRet /\ NoRace /\ UNCHANGED <<pc, ash>>
+BoCheck(t, ins, me, pendsub) ==
+  LET x == ins.o2  np == ob.bon[t].polls + 1 IN
+  \E i \in Readable(me, x) :
+    /\ SetMe(t, ReadMsg(me, x, i, EffAcq(ins.ord)))
+    /\ ash' = [ash EXCEPT ![x].ld[t] = Clk(me, t)]
+    /\ IF mo[x][i].val # 0
+       THEN /\ Ret(t, mo[x][i].val * 100 + np) /\ Adv(t)
+            /\ sub' = [sub EXCEPT ![t] = ""]
+            /\ ob' = [ob EXCEPT !.bon[t].polls = 0]
+       ELSE /\ NoRet /\ UNCHANGED pc
+            /\ sub' = [sub EXCEPT ![t] = pendsub]
+            /\ ob' = [ob EXCEPT !.bon[t].polls = np]
+    /\ UnchMem /\ NoRace /\ UNCHANGED <<scv, st, cells>>
+BoWait(t, ins, me) ==
+  \/ /\ ob.bon[t].flag
+     /\ ob' = [ob EXCEPT !.bon[t].flag = FALSE]
+     /\ sub' = [sub EXCEPT ![t] = "bo_poll"]
+     /\ BoBase(t, AcqV(me, ob.bon[t].view)) /\ UnchMem /\ NoRet /\ NoRace /\ UNCHANGED <<pc, ash>>
+  \/ /\ NotifySpur /\ ~ob.bon[t].spurred
+     /\ ob' = [ob EXCEPT !.bon[t].spurred = TRUE]
+     /\ sub' = [sub EXCEPT ![t] = "bo_poll"]
+     /\ BoBase(t, me) /\ UnchMem /\ NoRet /\ NoRace /\ UNCHANGED <<pc, ash>>
+BlockOn(t, ins, me) ==
+  IF ins.k = "reg-check"
+  THEN CASE sub[t] \in {"", "bo_poll"} -> BoRegister(t, ins, me, "bo_c")
+         [] sub[t] = "bo_c"    -> BoCheck(t, ins, me, "bo_wait")
+         [] sub[t] = "bo_wait" -> BoWait(t, ins, me)
+  ELSE CASE sub[t] \in {"", "bo_poll"} -> BoCheck(t, ins, me, "bo_r")
+         [] sub[t] = "bo_r"    -> BoRegister(t, ins, me, "bo_wait")
+         [] sub[t] = "bo_wait" -> BoWait(t, ins, me)
+\* AtomicWaker::wake: take the registered waker (if any) and wake it.  Two steps: the effect, then the
+\* return (dropping the taken waker is a scheduling point after the notification took effect).
+AwWake(t, ins, me) ==
+  LET w == ins.o  u == ob.aw[w]  me1 == AcqV(me, ob.awv[w]) IN
+  IF sub[t] = ""
+  THEN /\ ob' = IF u = 0 THEN [ob EXCEPT !.awv[w] = JoinV(@, me1.cur)]
+                ELSE [ob EXCEPT !.aw[w] = 0, !.awv[w] = JoinV(@, me1.cur),
+                                !.bon[u].flag = TRUE, !.bon[u].view = JoinV(@, me1.cur)]
+       /\ sub' = [sub EXCEPT ![t] = "wk"]
+       /\ SetMe(t, me1) /\ NoRet /\ NoRace /\ UnchMem /\ UnchRace /\ UNCHANGED <<pc, scv, st>>
+  ELSE /\ sub' = [sub EXCEPT ![t] = ""]
+       /\ SetMe(t, me) /\ Adv(t) /\ NoRet /\ NoRace /\ UnchMem /\ UnchRace /\ UNCHANGED <<scv, st, ob>>
+
 (* -------------------------------------------------------------- control *)
 \* br: if regs[r] = v fall through, else skip the next w instructions
 Br(t, ins, me) ==
@@ -647,6 +709,8 @@ Do(t, ins, me) ==
     [] ins.op = "tlwith"   -> TlWith(t, ins, me)
     [] ins.op = "tlnest"   -> TlNest(t, ins, me)
     [] ins.op = "lzget"    -> LzGet(t, ins, me)
+    [] ins.op = "blockon"  -> BlockOn(t, ins, me)
+    [] ins.op = "wake"     -> AwWake(t, ins, me)
     [] ins.op = "br"       -> Br(t, ins, me)
     [] ins.op = "panic"    -> Panic(t, ins, me)
     [] ins.op \in {"nop", "stopx", "explore", "skipb"} -> Nop(t, ins, me)
@@ -673,6 +737,7 @@ CanStep(t) ==
                                                       \* a state that needs one to make progress is a deadlock
        [] ins.op = "recv"   -> ob.ch[ins.o].q # <<>>
        [] ins.op = "await"  -> AwaitReadable(Tick(t), ins.o) # {}
+       [] ins.op = "blockon" -> sub[t] # "bo_wait" \/ ob.bon[t].flag
        [] OTHER -> TRUE
 
 (* ------------------------------------------------------------- terminal *)
